@@ -447,7 +447,8 @@ impl Ctx {
             let config = Config {
                 cases: per as u32,
                 failure_persistence: None,
-                max_shrink_iters: 4000,
+                max_shrink_iters: 600,
+                max_shrink_time: 30_000,
                 max_local_rejects: 1 << 20,
                 max_global_rejects: 1 << 20,
                 ..Config::default()
